@@ -20,6 +20,13 @@ touches the ShExC text produced before, so one Shaper is used as the property as
      the real SHACL serialiser must be predicted by the model and vice versa.
 (iii) grid: synthetic Statement objects (all kinds x cardinalities x direction x
      instantiation/regular) through the real serialiser classes against the model.
+
+Streams: random graphs (gen_graphs); tiny graphs per value kind x cardinality form x direction;
+graphs built so that a shape holds TWO OR MORE constraints on one predicate in one direction
+(values of two or three datatypes -- xsd:string + xsd:integer, xsd:string + rdf:langString, ... --
+literal + IRI mixes, IRI + blank-node values, nodes with several rdf:type values: same_predicate_cases);
+documents whose ShExC text is longer than the serialiser's 5000-line buffer, returned as a string
+(big_cases: quick one, thorough two -- one of them crosses the buffer twice).
 """
 import collections
 import itertools
@@ -125,7 +132,16 @@ def _analyse_case(case):
         sdoc = canon.parse_shacl(r["shacl"]) if r["shacl"] is not None else None
     except canon.CanonError as e:
         # text outside the ShExC subset / not a SHACL document the property can be read from
-        out["oracle"] = [{"kind": "unreadable-output", "shape": None, "tuple": [str(e)[:300]], "rc": None}]
+        detail = [str(e)[:300]]
+        try:        # what the two documents hold, as far as they can be read (for the report of the failure)
+            first = next((l for l in (r["shexc"] or "").split("\n") if l.strip()), "")
+            detail.append("ShExC text: %d lines, %d lines open a shape body, first line %r" % (
+                r["shexc"].count("\n"), sum(1 for l in r["shexc"].split("\n") if l.strip() == "{"), first[:80]))
+            if r["shacl"] is not None:
+                detail.append("SHACL document: %d node shapes" % len(canon.parse_shacl(r["shacl"])))
+        except BaseException:  # noqa
+            pass
+        out["oracle"] = [{"kind": "unreadable-output", "shape": None, "tuple": detail, "rc": None}]
         out["unreadable"] = True
         return out
     except BaseException as e:  # noqa
@@ -264,6 +280,105 @@ def random_cases(n, rnd):
         sw, thr = gen_graphs.gen_config(rnd, index=i)
         cases.append(make_case(g, sw, thr, NS_VARIANTS[i % len(NS_VARIANTS)], "random-%d" % i))
     return cases
+
+
+# value kinds drawn together for ONE predicate of one class: every kind gives its own constraint (literals: one per
+# datatype; IRI and BNode values: one each, or a NONLITERAL merge; a typed IRI: a shape reference)
+SAME_PREDICATE_KINDS = [("string", "integer"), ("string", "langString"), ("integer", "custom"), ("langString", "custom"),
+                        ("string", "integer", "langString"), ("string", "iri_untyped"), ("integer", "iri_typed"),
+                        ("iri_untyped", "bnode_untyped"), ("string", "bnode_untyped"), ("langString", "iri_typed")]
+
+
+def same_predicate_graph(rnd):
+    """1-3 classes, 2-5 nodes (some blank) with 1-3 rdf:type values each (at least one node has two when there are
+    two classes), 1-3 properties each carrying values of two or three kinds (both kinds present among the instances
+    of every class that has the property: the first two values alternate)"""
+    g = gen_graphs
+    b = g._Builder(rnd)
+    classes = [g.iri(g.NS + "C%d" % i) for i in range(rnd.randint(1, 3))]
+    nodes = [(g.bnode("s%d" % k) if rnd.random() < 0.15 else g.iri(g.NS + "s%d" % k)) for k in range(rnd.randint(2, 5))]
+    instances = {c: [] for c in classes}
+    for k, n in enumerate(nodes):
+        m = rnd.randint(1, len(classes))
+        if k == 0 and len(classes) > 1:
+            m = max(m, 2)
+        for c in rnd.sample(classes, m):
+            b.add(n, g.iri(RDF_TYPE), c)
+            instances[c].append(n)
+    typed_iris = [n for n in nodes if n[0] == "iri"]
+    props = [g.iri((g.FOAF if rnd.random() < 0.2 else g.NS) + "q%d" % i) for i in range(rnd.randint(1, 3))]
+
+    def value(kind):
+        if kind == "string":
+            return g.lit(b.fresh("v"))
+        if kind == "integer":
+            return g.lit(str(rnd.randint(0, 999)), g.XSD_INTEGER)
+        if kind == "langString":
+            return g.lit(b.fresh("w"), None, rnd.choice(["en", "es", "en-GB"]))
+        if kind == "custom":
+            return g.lit(b.fresh("x"), g.CUSTOM_DT)
+        if kind == "iri_untyped":
+            return g.iri(g.NS + b.fresh("u"))
+        if kind == "iri_typed":
+            return rnd.choice(typed_iris) if typed_iris else g.iri(g.NS + b.fresh("u"))
+        return g.bnode(b.fresh("n"))
+    kinds_of = {}
+    for p in props:
+        kinds = rnd.choice(SAME_PREDICATE_KINDS)
+        kinds_of[p] = kinds
+        turn = 0
+        for n in nodes:
+            if rnd.random() < 0.15:
+                continue
+            for j in range(rnd.choice([1, 1, 2, 2, 3])):
+                kind = kinds[turn % len(kinds)] if turn < 2 * len(kinds) else rnd.choice(kinds)
+                turn += 1
+                b.add(n, p, value(kind))
+    triples = list(b.triples)
+    rnd.shuffle(triples)
+    return {"triples": triples, "nt": g.nt_text(triples), "classes": classes, "instances": instances, "props": props,
+            "kinds": {g.nt_term(p): "+".join(k) for p, k in kinds_of.items()}, "out_of_domain": None}
+
+
+def same_predicate_cases(n, rnd):
+    cases = []
+    for i in range(n):
+        g = same_predicate_graph(rnd)
+        sw, thr = gen_graphs.gen_config(rnd, index=i)
+        if i % 3 != 2:
+            thr = (0, 1)            # every observed (predicate, kind) stays: both constraints of a pair are printed
+        cases.append(make_case(g, sw, thr, NS_VARIANTS[i % len(NS_VARIANTS)], "same-predicate-%d" % i))
+    return cases
+
+
+BIG_LINES = 5000      # ShexSerializer._write_line flushes its buffer every 5000 lines
+
+
+def big_case(nclasses, ns, tag):
+    """one class per node, every shape a typing constraint; every 8th node also has a string and an integer value
+    of ex:p (two constraints on one predicate) and a link to the next node (a shape reference): about
+    6.4 ShExC lines per class"""
+    T = "<%s>" % RDF_TYPE
+    E = "http://example.org/"
+    lines = []
+    for i in range(nclasses):
+        a = "<%sn%d>" % (E, i)
+        lines.append("%s %s <%sK%d> ." % (a, T, E, i))
+        if i % 8 == 0:
+            lines.append('%s <%sp> "v%d" .' % (a, E, i))
+            lines.append('%s <%sp> "%d"^^<%sinteger> .' % (a, E, i, XSD))
+            lines.append("%s <%sq> <%sn%d> ." % (a, E, E, (i + 1) % nclasses))
+    return {"nt": "\n".join(lines) + "\n", "switches": {}, "thr": [0, 1], "ns": ns,
+            "classes": ["%sK%d" % (E, i) for i in range(nclasses)], "tag": tag, "ood": None, "big": nclasses}
+
+
+def big_cases(tier):
+    """documents beyond the serialiser's line buffer: 880 classes (one flush); thorough also 1750 classes with a
+    namespaces dictionary (two flushes)"""
+    out = [big_case(880, None, "big-880")]
+    if tier == "thorough":
+        out.append(big_case(1750, NS_VARIANTS[1], "big-1750"))
+    return out
 
 
 def exhaustive_cases():
@@ -463,7 +578,9 @@ def run(tier, seed, replay=None):
     else:
         exh = exhaustive_cases()
         corpus = load_corpus()
-        cases = corpus + exh + random_cases(20000 if tier == "thorough" else 600, rnd)
+        # the big documents go first: a worker takes them while the others work through the small cases
+        cases = corpus + big_cases(tier) + exh + random_cases(20000 if tier == "thorough" else 600, rnd) \
+            + same_predicate_cases(4000 if tier == "thorough" else 200, rnd)
     results = core.pool_map(analyse_case, cases, chunksize=16)
 
     mb = core.ModelBin() if bs.model_ok else None
@@ -492,6 +609,8 @@ def run(tier, seed, replay=None):
     rows_unconfirmed = 0
     shacl_errors = collections.Counter()
     iso_kinds = collections.Counter()
+    same_pred = collections.Counter()
+    big_seen = []
     pos = 0
     lpos = 0
     realised = []
@@ -521,6 +640,20 @@ def run(tier, seed, replay=None):
         n_constraints += n
         if "want" in case:
             realised.append((case["tag"], want_realised(case, lines)))
+        per_key = collections.Counter((l["shape"], l["tuple"][0], l["tuple"][1]) for l in lines)
+        multi = [k for k, v in per_key.items() if v > 1]
+        if multi:
+            same_pred["cases"] += 1
+            same_pred["shapes_x_predicates"] += len(multi)
+            for k in multi:
+                restr = sorted(str(l["tuple"][2][0] if l["tuple"][2][0] != "kind" else l["tuple"][2][1])
+                               for l in lines if (l["shape"], l["tuple"][0], l["tuple"][1]) == k)
+                same_pred[("^" if k[1] else "") + "+".join(restr)] += 1
+        if case.get("big"):
+            big_seen.append({"tag": case["tag"], "classes": case["big"], "shexc_lines": r["shexc"].count("\n"),
+                             "buffer_flushes": r["shexc"].count("\n") // BIG_LINES, "shapes": len(r["label_rows"]),
+                             "constraint_lines": n, "shacl_characters": len(r["shacl"] or ""),
+                             "whole_document_model": (r.get("shacldoc") or {}).get("kind")})
         for l in lines:
             kinds_seen[l["tuple"][2][0] if l["tuple"][2][0] != "kind" else l["tuple"][2][1]] += 1
             forms_seen[("^" if l["tuple"][0] else "") + (l["ctok"] if not l["ctok"].startswith("{") else "{k}")] += 1
@@ -567,7 +700,13 @@ def run(tier, seed, replay=None):
             if cf is None:
                 model_err = any(m["shacl_status"] == "ValueError" for m in mrows) or \
                     any(lr[2] == "ValueError" for lr in lrows)
-                if r["shacl_error"] is not None:
+                # a status other than ok / ValueError: the model has no answer for this statement (the step sequence
+                # of the real serialiser, read by tools/gen_consts.py, is not one Model.SerialShacl interprets)
+                no_answer = [(l, m) for l, m in zip(lines, mrows) if m["shacl_status"] not in ("ok", "ValueError")]
+                if no_answer:
+                    cf = ("shacl_arcs (the model does not interpret the serialiser's steps: status %r)"
+                          % no_answer[0][1]["shacl_status"], no_answer[0][0]["raw"], None, None)
+                elif r["shacl_error"] is not None:
                     if not (r["shacl_error"].startswith("ValueError") and model_err):
                         cf = ("shacl error", r["shacl_error"], "model predicts ValueError: %s" % model_err, None)
                 elif model_err:
@@ -632,7 +771,9 @@ def run(tier, seed, replay=None):
                   for k in range(0, len(idx), 25)]
         if all_lrows:
             vcases.append(("c11_label", all_lrows[:25], label_out[:25]))
-        for case in [c for c, r in zip(cases, results) if r.get("shacldoc") and r["shacldoc"]["kind"] == "isomorphic"][:6]:
+        # (small documents only: a cases file of thousands of statements takes coqc tens of minutes)
+        for case in [c for c, r in zip(cases, results) if r.get("shacldoc") and r["shacldoc"]["kind"] == "isomorphic"
+                     and not c.get("big") and c["nt"].count("\n") <= 200][:6]:
             t = pipe.model_table(shacldoc.ts_of_nt(case["nt"]), shacldoc.cfg_of_c11_case(case))
             vcases.append(("shacl_doc", t, mb.call("shacl_doc", t)))
         _, mism, log = core.vm_crosscheck(vcases, "c11", per_file=4)
@@ -693,7 +834,12 @@ def run(tier, seed, replay=None):
                 "constraint lines with at least two different cardinality forms.  "
                 "Graphs: 1-4 classes, 1-6 instances (20 % blank nodes, 20 % multi-class), 1-4 properties, cardinalities "
                 "0-3, nine value kinds, 6 % with an out-of-domain feature; switch combinations round-robin over all "
-                "2^6; thresholds in {0, 1, k/n}; three namespaces dictionaries",
+                "2^6; thresholds in {0, 1, k/n}; three namespaces dictionaries.  Same-predicate stream: 1-3 classes, 2-5 "
+                "nodes with 1-3 rdf:type values, 1-3 properties whose values are of two or three kinds (datatype pairs, "
+                "literal + IRI, IRI + blank node): shapes with several constraints on one predicate and direction "
+                "(counted under several_constraints_on_one_predicate_and_direction).  Big documents: one class per node, "
+                "880 / 1750 classes, ShExC text beyond the serialiser's 5000-line buffer returned as a string "
+                "(documents_beyond_the_line_buffer)",
         "exhaustive": False,
         "exhaustive_part": {"what": "value kind x cardinality form x direction as tiny graphs (+ 4 instantiation cases)",
                             "intended": len(exh), "realised": len(n_real),
@@ -707,6 +853,8 @@ def run(tier, seed, replay=None):
         "forms_seen": dict(forms_seen),
         "real_shacl_errors": dict(shacl_errors),
         "shacl_graph_isomorphism": dict(iso_kinds),
+        "several_constraints_on_one_predicate_and_direction": dict(same_pred),
+        "documents_beyond_the_line_buffer": big_seen,
         "known_finding_hits": dict(known_hits),
         "corpus_cases_replayed_first": len(corpus),
         "corpus_cases_passing": sum(1 for i in range(len(corpus)) if results[i]["status"] == "ok"
